@@ -113,13 +113,38 @@ def moveSpec (t : Terminal) : Function → Terminal
 def specStep (t : Terminal) (f : Function) : Option Terminal :=
   if covered t f then some (moveSpec t f) else none
 
+/-! ### who may change origin mode -/
+
+/-- functions that can change `originMode`: DECSET / DECRST naming ?6, the restores of the saved
+    context, of which origin mode is a part (DECRC, SCORC, DECRST ?1048 and ?1049), and the two resets.
+    Everything else — every other mode (entering the alternate screen, leaving it with ?47l/?1047l,
+    saving the cursor), DECSTBM, every cursor movement, XTWINOPS — leaves it as it is
+    (`Avt.C05_origin_persists`). -/
+def setsOrigin : Function → Bool
+  | .decset ms => ms.any (· == DecMode.origin)
+  | .decrst ms =>
+    ms.any fun m => m == .origin || m == .saveCursor || m == .saveCursorAltScreenBuffer
+  | .decrc | .scorc | .ris | .decstr => true
+  | _ => false
+
 /-! ### oracle -/
 
 def checkStep (ev : StepEv) : List Verdict :=
-  if ev.kind == .resize || ev.funs.isEmpty then [] else
+  let p := ev.prev.terminal
+  let n := ev.next.terminal
+  -- a resize keeps origin mode
+  if ev.kind == .resize then
+    [check "resize-keeps-origin-mode" p.originMode (n.originMode == p.originMode)]
+  else
+  if ev.funs.isEmpty then [] else
+  -- origin mode is state: only DECSET/DECRST ?6, the restores and the resets change it
+  let origin : List Verdict :=
+    if ev.funs.all (fun f => !setsOrigin f) then
+      [check "origin-mode-persists" p.originMode (n.originMode == p.originMode)]
+    else []
+  let move : List Verdict :=
   match foldSpec specStep ev.funs ev.prev.terminal with
   | some expected =>
-    let n := ev.next.terminal
     [ check "move" true (n == afterCall ev.kind expected),
       -- the property's own words, checked separately so that a failure names the clause
       check "cursor" true (n.cursor == expected.cursor && n.pendingWrap == expected.pendingWrap),
@@ -144,6 +169,7 @@ def checkStep (ev : StepEv) : List Verdict :=
          | none => .pass false
        | _ => .pass false) ]
   | none => []
+  move ++ origin
 
 def checkNew (_cols _rows : Nat) (_lim : Option Nat) (_st : Vt) : List Verdict := []
 
